@@ -154,7 +154,13 @@ TStall == /\ More /\ E.k = "stall" /\ E.t >= now /\ now' = E.t /\ stallAcc' = st
 TDown == /\ More /\ E.k = "down" /\ E.t >= now /\ now' = E.t /\ down' = TRUE
          /\ UNCHANGED <<queue, marked, headSince, out, calls, order, pk, stallAcc, headStall, tid>> /\ l' = l + 1
 
-TNext == TCall \/ TSend \/ TPut \/ TMark \/ TPop \/ TRet \/ TInert \/ TStall \/ TDown
+\* the refresh loop starts a cycle's status request (its call boundary is visible to the harness): like every query it
+\* starts only while the spa is connected and answering pings
+TBg == /\ More /\ E.k = "bgcall" /\ E.t >= now /\ now' = E.t
+       /\ E.gate
+       /\ UNCHANGED <<queue, marked, headSince, out, calls, order, pk, stallAcc, headStall, down, tid>> /\ l' = l + 1
+
+TNext == TCall \/ TSend \/ TPut \/ TMark \/ TPop \/ TRet \/ TInert \/ TStall \/ TDown \/ TBg
 TSpec == TInit /\ [][TNext]_tvars
 Track == TKTrack(tid, l, l > Len(Ev))
 Report == TKReport
